@@ -1,0 +1,47 @@
+//go:build verif
+
+package cgroup
+
+// Contracts for gocv (see /verif/DESIGN.md). Comment-only; compiled only with
+// the build tag "verif". Model G (directory creation under interference) is in
+// /verif/spec/cgroup_G.contracts.
+
+// C20: nil means THIS call created the group directory; os.ErrExist means it was there already
+// (also when another creator made it concurrently). A handle destroys the group only if it created it.
+//@ func pkg/cgroup.EnsureDirExists props C20
+//@   arith int
+//@   assigns G.made
+//@   ensures result == nil ==> G.made[path]
+//@   ensures forall p string :: p != path ==> G.made[p] == old(G.made[p])
+
+//@ func pkg/cgroup.remove props C20
+//@   arith int
+//@   assigns G.rmdir
+//@   ensures len(name) != 0 ==> G.rmdir == old(G.rmdir)[name := true]
+//@   ensures len(name) == 0 ==> G.rmdir == old(G.rmdir)
+
+//@ func pkg/cgroup.(*V2).enableSubtreeControl
+//@   trusted "reads cgroup.controllers / writes cgroup.subtree_control once (sync.Once closure)"
+//@   pure
+
+// V2.New: the handle is marked existing exactly when mkdir reported that the directory was already there
+//@ func pkg/cgroup.(*V2).New props C20
+//@   arith int
+//@   requires c != nil
+//@   assigns G.made
+//@   ensures result.1 == nil ==> ref_as(result.0, V2) != nil && fresh(ref_as(result.0, V2))
+//@   ensures result.1 == nil && !ref_as(result.0, V2).existing ==> G.made[ref_as(result.0, V2).path]
+
+// Destroy removes the group only through a handle that created it
+//@ func pkg/cgroup.(*V2).Destroy props C20
+//@   arith int
+//@   requires c != nil
+//@   assigns G.rmdir
+//@   ensures c.existing ==> G.rmdir == old(G.rmdir)
+//@   ensures !c.existing && len(c.path) != 0 ==> G.rmdir == old(G.rmdir)[c.path := true]
+
+//@ func pkg/cgroup.(*V2).Existing props C20
+//@   arith int
+//@   requires c != nil
+//@   assigns nothing
+//@   ensures result == c.existing
